@@ -6,7 +6,7 @@ import numpy as np
 
 from harness.common import lean_obligations
 from harness.search_deriv import derivative_search
-from harness.points import displacement
+from harness.points import displacement, canon
 
 MODULE = 'Ndt.Props.C02'
 THEOREMS = ['Ndt.info_consistent', 'Ndt.bestEstimate_err_nonneg', 'Ndt.wynnTable_err_nonneg', 'Ndt.tailStage_err_nonneg',
@@ -46,7 +46,14 @@ def run(ctx):
 
         def g(t):
             r = f(t)
-            seen.append(displacement(t, x))
+            if cls == 'Derivative':
+                # elementwise: every element moves by its own step
+                c_ = canon(t)
+                base_ = np.zeros(c_.shape)
+                base_[..., 0] = np.broadcast_to(x, c_.shape[:-1])
+                seen.append(np.max(np.abs(c_ - base_), axis=-1))
+            else:
+                seen.append(displacement(t, x))
             return r
         try:
             with warnings.catch_warnings():
@@ -73,9 +80,20 @@ def run(ctx):
         if not np.all((ee.ravel()[finite] >= 0) & np.isfinite(ee.ravel()[finite])):
             ctx.violation('error_estimate negative or not finite where the result is finite', error_estimate=ee.tolist(), **rep)
         # final_step within the range of the generated steps: a point differs from x by h/sqrt2 (sqrt(i) rules), h or 2h per component
-        disp = [d_ for d_ in seen if d_ > 0]
-        if disp and not (np.all(np.abs(fs) <= 1.4143 * max(disp)) and np.all(np.abs(fs) >= 0.999 * min(disp) / 2.01)):
-            ctx.violation('final_step outside the range of the generated steps', final_step=fs.tolist(), smallest=min(disp), largest=max(disp), **rep)
+        if cls == 'Derivative':
+            moved = [d_ for d_ in seen if np.any(d_ > 0)]
+            if moved:
+                dmat = np.array([np.ravel(d_) for d_ in moved])               # (evaluations, elements)
+                dmin = np.array([np.min(col[col > 0]) if np.any(col > 0) else np.inf for col in dmat.T])
+                dmax = np.max(dmat, axis=0)
+                fsv = np.abs(np.ravel(fs))
+                if fsv.size == dmax.size and not (np.all(fsv <= 1.4143 * dmax) and np.all(fsv >= 0.999 * dmin / 2.01)):
+                    ctx.violation('final_step outside the range of the generated steps', final_step=fs.tolist(), smallest=dmin.tolist(),
+                                  largest=dmax.tolist(), **rep)
+        else:
+            disp = [d_ for d_ in seen if d_ > 0]
+            if disp and not (np.all(np.abs(fs) <= 1.4143 * max(disp)) and np.all(np.abs(fs) >= 0.999 * min(disp) / 2.01)):
+                ctx.violation('final_step outside the range of the generated steps', final_step=fs.tolist(), smallest=min(disp), largest=max(disp), **rep)
         # honesty of the estimate against the analytic derivative of the three test functions
         ex_ = np.exp(x)
         if cls == 'Derivative':
